@@ -136,6 +136,7 @@ theorem skip_pure (env : Env) (hrules : ∀ i, i < env.rules.size → skipOK env
         · exact this
         · exact this
         · exact Same.trans this (prepareCustom_same env _)
+        · exact this
         · exact Same.trans this ⟨rfl, rfl, rfl, rfl, rfl, rfl, rfl, rfl⟩
         · exact Same.trans this ⟨rfl, rfl, rfl, rfl, rfl, rfl, rfl, rfl⟩
       | and_ i e' =>
